@@ -129,15 +129,23 @@ def mon_C01(sc, trace, probes, info):
                     out += stale_wakeups(probes, 'the simulation was torn down by %r and await %r started at %r by %r never '
                                          'resumed at %r' % (info['exc'], w, t0, actor, exp))
                     break
-    dos = {p[2]: p for p in by(probes, 'do')}
-    for p in by(probes, 'task_start'):
-        d = dos.get(p[1])
-        if d is None:
-            continue
+    # (task names are static: a `do` statement inside a loop body spawns several instances of one name - every start must
+    # be the planned start of one of the spawns of that name, each spawn accounting for at most one start)
+    planned = {}
+    for d in by(probes, 'do'):
         start, t = d[3], d[5]
         exp = t if start[0] == 'now' else (t + tv(start[1]) if start[0] == 'after' else tv(start[1]))
-        if p[2] != exp:
-            out.append(('task %r spawned at %r with %r started at %r, expected %r' % (p[1], t, start, p[2], exp), None))
+        planned.setdefault(d[2], []).append((exp, t, start))
+    for p in by(probes, 'task_start'):
+        cands = planned.get(p[1])
+        if cands is None:
+            continue
+        hit = [c for c in cands if c[0] == p[2]]
+        if hit:
+            cands.remove(hit[0])
+        else:
+            out.append(('task %r started at %r, but its spawns planned the starts %r (spawned at, with: %r)'
+                        % (p[1], p[2], [c[0] for c in cands], [(c[1], c[2]) for c in cands]), None))
     times = [e[0] for e in trace]
     if not sc.get('float_times') and any(b < a for a, b in zip(times, times[1:])):
         out.append(('event times decrease in the trace', None))
